@@ -41,8 +41,15 @@ def prim_oracle(D, M, perm, what):
 
 def gen_matrix(rng):
     n = rng.randrange(2, 9)
-    kind = rng.choice(["line", "grid", "sym", "asym"])
-    if kind == "line":
+    kind = rng.choice(["line", "grid", "sym", "asym", "near", "big"])
+    if kind in ("near", "big"):
+        # dissimilarities that differ by far less than their size: only exact comparison orders them correctly
+        base, step = (1.0, 2.0 ** -30) if kind == "near" else (100000.0, 1.0)
+        D = [[0.0] * n for _ in range(n)]
+        for i in range(n):
+            for j in range(i + 1, n):
+                D[i][j] = D[j][i] = base + step * rng.randrange(0, 4)
+    elif kind == "line":
         pts = [rng.randrange(0, 8) for _ in range(n)]
         D = [[abs(a - b) for b in pts] for a in pts]
     elif kind == "grid":
@@ -79,7 +86,7 @@ def main():
     from scipy.spatial.distance import pdist, squareform
     for _ in range(100 if tier == "quick" else 1000):
         m = rng.randrange(2, 9)
-        P = np.array([[rng.randrange(0, 4), rng.randrange(0, 4)] for _ in range(m)], dtype=float)
+        P = np.array([[rng.randrange(0, 4), rng.randrange(0, 4)] for _ in range(m)], dtype=float) * rng.choice([1.0, 1.0, 2.0 ** -30, 2.0 ** 20])
         M, perm = VAT(P)
         fails.extend(prim_oracle(squareform(pdist(P, "euclidean")), M, perm, "points, default metric"))
         M, perm = VAT(P, distance_metric=lambda X: pdist(X, "cityblock"))
